@@ -293,6 +293,33 @@ func cliCheckC10(sc cliMScenario, r cliMResult) (string, string) {
 				}
 			}
 		}
+		// "returns with the response as soon as an acceptable one arrives", "malformed,
+		// foreign or unsolicited datagrams are dropped without disturbing any call": when
+		// nothing races, no matcher blocks anywhere and nobody else can hold the xid, the
+		// first acceptable datagram that reaches the socket while the call is out IS its
+		// result, in the very group it arrives in - whatever was received before it
+		anyGated := false
+		for _, o := range sc.callers {
+			if o.gated {
+				anyGated = true
+			}
+		}
+		aloneOnXid := true
+		for j, o := range sc.callers {
+			if j != i && o.xid == mc.xid {
+				aloneOnXid = false
+			}
+		}
+		if singleton && !anyGated && aloneOnXid && c.outcome != "inuse" {
+			for _, e := range r.injected {
+				if e.group > c.callGroup && e.group <= c.retGroup && e.ok && e.xid == mc.xid && (mc.matchNil || e.tag == 1) {
+					if c.outcome != fmt.Sprintf("resp%d", e.idx) || c.retGroup != e.group {
+						return "acceptable-datagram-missed", fmt.Sprintf("call %d (groups %d..%d) ended with %s although datagram #%d - its transaction id, accepted by its matcher - arrived in group %d while it was waiting, and was the first such", i, c.callGroup, c.retGroup, c.outcome, e.idx, e.group)
+					}
+					break
+				}
+			}
+		}
 		// an acceptable datagram that arrived while the call was waiting behind its blocked
 		// matcher - parked in the receive loop, queued in the socket or in the call's
 		// buffer - is still the call's answer when the matcher lets go, however much of
